@@ -39,7 +39,7 @@ type cliCase struct {
 var cliFixtures = map[string]string{
 	"calc.bcl": "var x = 2\ndef srv \"a\" { port = 80 + x }\nprint \"ok\", \n",
 	"e.bcl":    "print 1\nprint )\nvar = 3\n",
-	"lib.bcl":  "print \"before\"\ndef a { f = 1 }\nprint 1 + nil\nprint \"after\"\n",
+	"lib.bcl":  "print \"" + strings.Repeat("s", 95) + "\"\nprint \"before\"\ndef a { f = 1 }\nprint 1 + nil\nprint \"after\"\n",
 }
 
 func init() {
